@@ -170,16 +170,29 @@ def history_checks(acc, part, parts):
     answer must be the one for the edited WBS (nothing about the first call may be remembered)."""
     from pjplan import Task
     structs = [(par, links) for par, links in LY.structures(3, 2, 2) if not LY.leaf_cycle(par, links)]
-    for par, links in structs[part::parts]:
+    # four tasks with a summary and <= 1 link: only moves of SUMMARY tasks (the leaves below them change ancestors without being touched)
+    structs4 = [(par, links) for par in LY.forests(4) if any(not LY.is_leaf(par, k) for k in range(4))
+                for links in LY.link_sets(par, 1) if not LY.leaf_cycle(par, links)]
+    for par, links in structs[part::parts] + structs4[part::parts]:
         n = len(par)
         lv = [k for k in range(n) if LY.is_leaf(par, k)]
-        for ests in ((8,) * len(lv), (3, 8, 5)[:len(lv)]):
+        for ests in ((8,) * len(lv), (3, 8, 5, 2)[:len(lv)]):
             attrs = {k: {'estimate': ests[j]} for j, k in enumerate(lv)}
             edits = []
+            for k in range(n):
+                if k not in lv:
+                    for tgt in list(range(n)) + [None]:
+                        if tgt != k and tgt != par[k]:
+                            edits.append(('move', k, tgt))
+            if n == 4:
+                edits_only_moves = True
+            else:
+                edits_only_moves = False
             for tgt in list(range(n)) + [None]:
                 for e in (2, 20):
-                    edits.append(('add-leaf', tgt, e))
-            for k in lv:
+                    if not edits_only_moves:
+                        edits.append(('add-leaf', tgt, e))
+            for k in ([] if edits_only_moves else lv):
                 edits.append(('estimate', k, 30))
                 edits.append(('spent', k, 100))
                 edits.append(('remove', k, None))
@@ -188,9 +201,9 @@ def history_checks(acc, part, parts):
                         edits.append(('move', k, tgt))
             for p_ in range(n):
                 for s_ in range(n):
-                    if p_ != s_:
+                    if p_ != s_ and not edits_only_moves:
                         edits.append(('link', p_, s_))
-            for (p_, s_) in links:
+            for (p_, s_) in ([] if edits_only_moves else links):
                 edits.append(('unlink', p_, s_))
             for ed in edits:
                 w, objs = build(par, links, attrs)
